@@ -267,7 +267,7 @@ def run_property(prop, obligations, tier, seed=0, workers=None, assumptions=(), 
                         ob.name, g, json.dumps(r2)[:900] if res else "timeout"))
             validated += wit_ok
             rec["witnesses_replayed"] = wit_ok
-            if missing and exhausted:
+            if missing and exhausted and not fails:
                 harness_errors.append("%s: coverage goal(s) unreachable (vacuous harness?): %s" % (ob.name, missing))
             if missing and not exhausted:
                 rec["goals_not_reached_before_budget"] = missing
